@@ -195,6 +195,7 @@ def check(ctx, report):
     report.floor('C01.R15', 100, 'tabulated flag words and instants')
     from .c07 import ecdsa_points
     ecdsa_points(ctx, report, RULE='C01.R16')
+    defaults_are_values(ctx, report)
     if 'SslRecord' in reviewed and reviewed['SslRecord'].get('strip_header'):
         # the header left out of the element-wise comparison above
         from .c06 import ssl2_header
@@ -206,6 +207,28 @@ def check(ctx, report):
     report.floor('C01.R1', 150, 'binary DSL classes')
     report.floor('C01.R2t', 100, 'text DSL classes')
     report.floor('C01.R5', 300, 'class/registry obligations')
+
+
+def defaults_are_values(ctx, report, RULE='C01.R17'):
+    """The first positional argument of ``attr.ib`` is the *default* of the field.  A validator written there is never applied, and
+    an object built without that argument holds the validator object as its value: the library lets the caller construct it, and it
+    cannot be composed.  Every field declaration of the package is read: the positional argument, where there is one, is not a
+    call into ``attr.validators`` (nor a converter / ``attr.Factory`` misplaced the same way is accepted as a value)."""
+    report.rule(RULE, 'field declarations: what stands in the position of the default is a value, not a validator')
+    n = 0
+    for c in ctx.model.repo_classes():
+        for fld in c.own_fields:
+            n += 1
+            if not fld.call.args:
+                continue
+            a = fld.call.args[0]
+            text = ast.unparse(a.func) if isinstance(a, ast.Call) else ''
+            if text.startswith(('attr.validators.', 'validators.', 'attrs.validators.')):
+                report.add(RULE, '%s@field[%s]' % (c.construct, fld.name),
+                           '%s.%s = attr.ib(%s): the validator is in the position of the default - it is never applied, and %s() built without '
+                           'this argument holds the validator object as %s (composing it fails)' % (c.name, fld.name, ast.unparse(a)[:60], c.name, fld.name))
+    report.count(RULE, n)
+    report.floor(RULE, 300, 'field declarations')
 
 
 def text_bindings(ctx, c, report):
